@@ -34,6 +34,7 @@ struct ref_out {
 	int env_name_off, env_name_len;
 	int env_has_def, env_def_off, env_def_len;
 	int lines;	 /* newlines the step must count */
+	int glued_comment; /* 1: the word is directly followed by a comment opener whose slash is not part of the word */
 	int nerr;	 /* diagnostics the step must deliver */
 	int eof;	 /* 1: end of input in this start condition */
 	int grey;
@@ -372,6 +373,12 @@ static void ref_lex_step(int sc, const unsigned char *b, int n, struct ref_out *
 			i = 0;
 			while (i < n && !ref_word_stop(b[i]))
 				i++;
+			/* ... nor one that directly follows it: "word" "/" "*" is a word and the start of a comment (C15:
+			 * a comment may stand between any two tokens, with or without blanks around it) */
+			if (i >= 2 && i < n && b[i - 1] == '/' && b[i] == '*') {
+				i--;
+				r->glued_comment = 1;
+			}
 			r->consumed = i;
 			r->tok = CFGT_STR;
 			r->text_input = 1;
